@@ -30,7 +30,7 @@ ASSUMPTIONS = [
 FLOORS = {"repeat_kind": 0.2}
 
 OPS = ["sb20_default", "sb20_explicit", "sb21_default", "sb21_explicit", "sb21_export", "adv_params", "sb21_cfg_shared", "sb21_cfg_fresh", "sb21_full", "sb21_full_shared",
-       "mbi_class", "mbi_config", "mbi_config_shared", "mbi_config_shared", "mbi_full", "mbi_full_shared", "mbi_reload", "mbi_reload_given", "otfad_blob", "otfad_export", "iee_xts", "iee_ctr", "bee_prdb", "bee_kib", "bee_header", "hab_nonce",
+       "mbi_class", "mbi_config", "mbi_config_shared", "mbi_config_shared", "mbi_full", "mbi_full_shared", "mbi_reload", "mbi_reload_given", "otfad_blob", "otfad_export", "iee_xts", "iee_ctr", "bee_prdb", "bee_kib", "bee_header", "bee_full", "hab_nonce",
        "hab_dek_128", "hab_dek_256"]
 
 
@@ -211,6 +211,37 @@ def _do(op: str, idx: int, env: dict | None = None) -> dict[str, bytes]:
 
         h = BeeRegionHeader()
         return {"bee_sw_key": h._sw_key, "bee_kib_key": h._kib.kib_key, "bee_kib_iv": h._kib.kib_iv, "bee_counter": h._prdb.counter[:12]}
+    if op == "bee_full":
+        # both BEE engines through BeeNxp.load_from_config (user keys given, everything else left to SPSDK): the headers are opened
+        # with the user keys; the two engines of one build and the builds of one history must not share counter, KIB key or KIB IV
+        from spsdk.image.bee import BeeNxp
+        from vf.ref import flashenc as F
+
+        wd = os.path.join(env["workdir"], "bee_full")
+        os.makedirs(wd, exist_ok=True)
+        with open(os.path.join(wd, "plain.bin"), "wb") as f:
+            f.write(bytes(range(256)) * 32)
+        keys = [bytes([0x11 + idx]) * 16, bytes([0x77 - idx]) * 16]
+        cfg = {"output_folder": os.path.join(wd, "out"), "input_binary": os.path.join(wd, "plain.bin"), "engine_selection": "both",
+               "engine_key_selection": "random", "base_address": "0x60000000",
+               "bee_engine": [{"bee_cfg": {"user_key": "0x" + k.hex(), "protected_region": [
+                   {"start_address": hex(0x60001000 + 0x1000 * i), "length": "0x800", "protected_level": 0}]}} for i, k in enumerate(keys)]}
+        bee = BeeNxp.load_from_config(cfg, search_paths=[wd])
+        hdrs = bee.export_headers()
+        bee.export_image()
+        out: dict = {}
+        opened = []
+        for i, k in enumerate(keys):
+            h = F.bee_open_header(bytes(hdrs[i]), k)
+            if h is None:
+                raise AssertionError("BEE header of engine %d does not open with its user key" % i)
+            opened.append(h)
+        a, b = opened
+        if a["counter"] == b["counter"] or a["kib_key"] == b["kib_key"] or a["kib_iv"] == b["kib_iv"]:
+            raise AssertionError("the two engines of one build share counter / KIB key / KIB IV: %s %s" % (a["counter"].hex(), b["counter"].hex()))
+        # one kind per engine slot; the distinctness across the builds of the history is judged by the caller
+        return {"bee_counter": a["counter"][:12], "bee_kib_key": a["kib_key"], "bee_kib_iv": a["kib_iv"],
+                "bee_counter_engine1": b["counter"][:12] + b"\x01", "bee_kib_key_engine1": b["kib_key"] + b"\x01", "bee_kib_iv_engine1": b["kib_iv"] + b"\x01"}
     if op == "hab_nonce":
         from spsdk.image.hab.segments import CsfHabSegment
 
